@@ -140,7 +140,11 @@ func waitWG(wg *sync.WaitGroup, d time.Duration) bool {
 }
 
 func quiet() bool {
+	t0 := time.Now()
 	q := quiesce.Wait(quiesce.Options{Interval: 2 * time.Millisecond, Timeout: watchdog})
+	if os.Getenv("C18_TIMING") == "2" {
+		fmt.Fprintf(os.Stderr, "QUIET samples=%d goroutines=%d %.1fms\n", q.Samples, len(q.Dump), float64(time.Since(t0).Microseconds())/1000)
+	}
 	if !q.Quiescent {
 		for _, g := range q.Dump {
 			switch g.State {
@@ -505,7 +509,10 @@ func livePick(links []*link, k int) *link {
 	return lv[k%len(lv)]
 }
 
-func runSeq(c caseDesc) *report {
+func runSeq(c caseDesc) *report { return runSeqUntil(c, "") }
+
+// runSeqUntil stops as soon as the given symptom has been observed (used while minimising).
+func runSeqUntil(c caseDesc, until string) *report {
 	rp := &report{extra: map[string]interface{}{}}
 	s := newServer(c.N, c.Seed)
 	cli := erpc.NewPeer(erpc.PeerConfig{})
@@ -578,6 +585,9 @@ func runSeq(c caseDesc) *report {
 		s.mon.mu.Unlock()
 		rp.trace = append(rp.trace, fmt.Sprintf("%d %s -> %s [monitor live %d, limit %d]", i+1, st.Op, obs, live, lim))
 		if !checkQuiescent(s, links, rp, where) {
+			return rp
+		}
+		if until != "" && rp.has(until) {
 			return rp
 		}
 	}
@@ -687,34 +697,66 @@ func runConc(c caseDesc) *report {
 	return rp
 }
 
-// minimise removes steps one at a time while the symptom persists.
-func minimise(c caseDesc, symptom string) caseDesc {
+// minimise shrinks a failing sequential history (delta debugging over the steps, then a smaller
+// limit) within the process-wide budget of re-executions. It returns the smallest failing case
+// and the report of its last failing execution.
+var minRuns, minBudget = 0, 120
+
+// minimal histories already found in this process, tried first (the symptoms share one cause more often than not)
+var minCache []caseDesc
+
+func minimise(c caseDesc, symptom string) (caseDesc, *report) {
 	cur := c
-	for pass := 0; pass < 3; pass++ {
-		changed := false
-		for i := 0; i < len(cur.Steps); i++ {
-			t := cur
-			t.Steps = append(append([]step(nil), cur.Steps[:i]...), cur.Steps[i+1:]...)
-			if rp := runSeq(t); rp.inconclusive == "" && rp.has(symptom) {
-				cur = t
-				changed = true
-				i--
+	var last *report
+	fails := func(t caseDesc) bool {
+		if minRuns >= minBudget {
+			return false
+		}
+		minRuns++
+		rp := runSeqUntil(t, symptom)
+		if rp.inconclusive == "" && rp.has(symptom) {
+			last = rp
+			return true
+		}
+		return false
+	}
+	for _, m := range minCache {
+		if m.HClass == c.HClass && len(m.Steps) < len(cur.Steps) {
+			if fails(m) {
+				cur = m
 			}
 		}
-		if !changed {
-			break
+	}
+	without := func(i, n int) caseDesc {
+		t := cur
+		t.Steps = append(append([]step(nil), cur.Steps[:i]...), cur.Steps[i+n:]...)
+		return t
+	}
+	for chunk := (len(cur.Steps) + 1) / 2; chunk >= 1; chunk /= 2 {
+		for again := true; again && minRuns < minBudget; {
+			again = false
+			for i := 0; i+chunk <= len(cur.Steps); {
+				if t := without(i, chunk); fails(t) {
+					cur = t
+					again = chunk == 1
+				} else {
+					i += chunk
+				}
+			}
 		}
 	}
-	// a smaller limit, if it still shows
 	for n := 1; n < cur.N; n++ {
 		t := cur
 		t.N = n
-		if rp := runSeq(t); rp.inconclusive == "" && rp.has(symptom) {
+		if fails(t) {
 			cur = t
 			break
 		}
 	}
-	return cur
+	if last != nil {
+		minCache = append(minCache, cur)
+	}
+	return cur, last
 }
 
 // ---------- conn generators ----------
@@ -859,15 +901,48 @@ func newSessPool(n int) *sessPool {
 
 var linClasses = []string{"paired", "framework", "paired-update", "framework-update"}
 
+type discRec struct{ n int32 }
+
+func (d *discRec) Name() string { return "c18-disconnect-recorder" }
+func (d *discRec) PostDisconnect(erpc.BaseSession) *erpc.Status {
+	atomic.AddInt32(&d.n, 1)
+	return nil
+}
+
+var (
+	discOnce   sync.Once
+	discOnRej  bool
+	discOnRejN int32
+)
+
+// disconnectOnReject observes, once per process, whether the framework runs the disconnect hooks for a
+// session that an accept hook refused. The "framework" histories replay exactly that call pattern on the
+// plug-in; if the framework does not do it, they would model calls that never happen and are run as "paired".
+func disconnectOnReject() bool {
+	discOnce.Do(func() {
+		d := &discRec{}
+		rej := &rejector{name: "c18-probe-reject", pending: 1, r: core.NewRand(1)}
+		p := erpc.NewPeer(erpc.PeerConfig{}, d, rej)
+		ca, cb := memconn.NewPair()
+		_, st := p.ServeConn(cb)
+		quiet()
+		discOnRejN = atomic.LoadInt32(&d.n)
+		discOnRej = !st.OK() && discOnRejN > 0
+		ca.Close()
+		p.Close()
+	})
+	return discOnRej
+}
+
 // runLinHistory records one concurrent history and checks it.
 func runLinHistory(class string, n, g, per int, pool *sessPool, r *core.Rand) (verdict string, ops []linOp, overlap bool) {
 	ov := overloader.New(overloader.LimitConfig{MaxConn: int32(n)})
-	framework := strings.HasPrefix(class, "framework")
+	framework := strings.HasPrefix(class, "framework") && disconnectOnReject()
 	update := strings.HasSuffix(class, "update")
 	var clk int64
 	var mu sync.Mutex
 	var wg sync.WaitGroup
-	start := make(chan struct{})
+	var start int32 // spin barrier: the goroutines leave it together, which is what makes the short operations overlap
 	held := make([][]erpc.Session, g)
 	for gi := 0; gi < g; gi++ {
 		wg.Add(1)
@@ -876,7 +951,8 @@ func runLinHistory(class string, n, g, per int, pool *sessPool, r *core.Rand) (v
 			defer wg.Done()
 			var local []linOp
 			next := gi * per
-			<-start
+			for atomic.LoadInt32(&start) == 0 {
+			}
 			for k := 0; k < per; k++ {
 				switch {
 				case update && gi == 0 && k == per/2:
@@ -910,16 +986,14 @@ func runLinHistory(class string, n, g, per int, pool *sessPool, r *core.Rand) (v
 						local = append(local, linOp{gi, "disconnect-after-refusal", 0, true, c, ret})
 					}
 				}
-				if gr.Intn(3) == 0 {
-					runtime.Gosched()
-				}
 			}
 			mu.Lock()
 			ops = append(ops, local...)
 			mu.Unlock()
 		}(gi)
 	}
-	close(start)
+	time.Sleep(50 * time.Microsecond)
+	atomic.StoreInt32(&start, 1)
 	wg.Wait()
 	// give the slots back (not part of the history; sessions are reused by the next one)
 	for gi := range held {
@@ -953,7 +1027,10 @@ func runLin(id string, c caseDesc) {
 		}
 		pool.peer.Close()
 	}()
-	framework := strings.HasPrefix(c.HClass, "framework")
+	framework := strings.HasPrefix(c.HClass, "framework") && disconnectOnReject()
+	if strings.HasPrefix(c.HClass, "framework") {
+		core.Max("framework_disconnect_hooks_for_a_refused_session", int64(discOnRejN))
+	}
 	var illegal, unknown, overlaps, refusals, takes int64
 	var first []linOp
 	firstN, firstG := 0, 0
@@ -1385,7 +1462,7 @@ func runRateDirect(c caseDesc) *report {
 						time.Sleep(time.Duration(1+r.Intn(50)) * time.Microsecond)
 					}
 				case 3:
-					if !st.OK() { // back off until the next refill: keeps the bucket non-empty at tick time
+					if !st.OK() && i&7 == 0 { // back off towards the next refill: keeps the bucket non-empty at tick time
 						time.Sleep(interval / 2)
 					}
 				}
@@ -1415,7 +1492,10 @@ func genRate(i int, r *core.Rand) caseDesc {
 	c := caseDesc{Engine: "rate", MaxQPS: caps[i%len(caps)], IntervalMs: ints[(i/len(caps))%len(ints)], Seed: int64(r.Uint64() >> 1)}
 	if i%8 == 7 {
 		c.HClass, c.Class = "direct", "rate/direct"
-		c.G, c.Iter = 16, 20000
+		c.G, c.Iter = 16, 6000
+		if *tier == "thorough" {
+			c.Iter = 30000
+		}
 		c.IntervalMs = []int{1, 2, 5}[r.Intn(3)]
 		c.MaxQPS = []int{100, 1000, 5000, 20000}[r.Intn(4)]
 		return c
@@ -1487,6 +1567,9 @@ func execute(id string, c caseDesc) {
 	if rp.nontrivial {
 		core.Distinct("nontrivial", rp.sig)
 	}
+	if os.Getenv("C18_TIMING") != "" && c.Engine == "rate" {
+		fmt.Fprintf(os.Stderr, "RATE %s %+v findings=%v inconclusive=%q\n", rp.sig, rp.extra, rp.findings, rp.inconclusive)
+	}
 	core.Sample(map[string]interface{}{"case": c, "admitted": rp.admitted, "rejected": rp.rejected, "observed": rp.extra, "trace": rp.trace})
 	if len(rp.findings) == 0 {
 		if rp.inconclusive != "" {
@@ -1510,9 +1593,7 @@ func execute(id string, c caseDesc) {
 		desc := c
 		if c.Engine == "conn" && c.Mode == "seq" && !minimised[fp] && *replay == "" {
 			minimised[fp] = true
-			m := minimise(c, f.Symptom)
-			mr := runSeq(m)
-			if mr.has(f.Symptom) {
+			if m, mr := minimise(c, f.Symptom); mr != nil {
 				desc = m
 				wit["minimal_history"] = m.Steps
 				wit["minimal_limit"] = m.N
@@ -1551,9 +1632,10 @@ func main() {
 		return
 	}
 
-	nSeq, nConc, nLin, linPer, nRate := 130, 24, 20, 10, 24
+	nSeq, nConc, nLin, linPer, nRate := 130, 24, 20, 60, 24
 	if *tier == "thorough" {
-		nSeq, nConc, nLin, linPer, nRate = 4400, 600, 400, 50, 500
+		nSeq, nConc, nLin, linPer, nRate = 4400, 600, 400, 100, 500
+		minBudget = 300
 	}
 	type job struct {
 		id string
